@@ -136,13 +136,18 @@ int main(void) {
   __CPROVER_assume(!vp_unfinished);
 #endif
   for (int i = 0; i < NH; i++) VP_ASSERT(h_done[i] || h_kind[i] == 2, "harness: finished thread without a recorded response");
+  /* (1b) every successful pop returned a priority of the domain (anything else was never pushed) */
+  int vals_ok = 1;
+  for (int i = 0; i < NH; i++) if (h_kind[i] == 1 && h_ok[i] && (h_val[i] < 0 || h_val[i] >= DOM)) vals_ok = 0;
+  VP_ASSERT(vals_ok, "pop returned a value that was never pushed");
+  if (vals_ok) {
   /* (2) linearizability */
   VP_ASSERT(linearizable(), "history not linearizable as a priority queue (lost/duplicated element, non-maximal pop, or unjustified empty)");
   /* (3) final state */
   {
     int cnt[DOM]; int tot = 0;
     for (int v = 0; v < DOM; v++) cnt[v] = init_cnt[v];
-    for (int i = 0; i < NH; i++) { if (h_kind[i] == 0) cnt[h_val[i]]++; else if (h_kind[i] == 1 && h_ok[i]) { VP_ASSERT(h_val[i] >= 0 && h_val[i] < DOM, "pop returned a value that was never pushed"); cnt[h_val[i]]--; } }
+    for (int i = 0; i < NH; i++) { if (h_kind[i] == 0) cnt[h_val[i]]++; else if (h_kind[i] == 1 && h_ok[i]) cnt[h_val[i]]--; }
     for (int v = 0; v < DOM; v++) { VP_ASSERT(cnt[v] >= 0, "more elements of a priority popped than pushed"); tot += cnt[v]; }
     u64 n = vp_q_dsize(Q);
     VP_ASSERT(n == (u64)tot, "final size differs from pushed - popped (lost or duplicated element)");
@@ -156,6 +161,7 @@ int main(void) {
     }
     for (int v = 0; v < DOM; v++) VP_ASSERT(cnt[v] == 0, "final contents are not initial + pushed - popped");
     VP_ASSERT(vp_q_pending(Q) == 0 && vp_q_busy(Q) == 0, "aggregator not idle after all operations returned");
+  }
   }
   VP_REACHED();
   return 0;
